@@ -314,3 +314,46 @@ Proof.
   apply (same_results_streams body htr hs c1 tr1 s1 c2 tr2 s2 R NC AD T1 T2 F1 F2).
   exact (own_requests_nodup c1 tr1 s1 htr hs body T1 R NC AD Own).
 Qed.
+
+(** * non-vacuity *)
+(* two calls (ids "1", "2"); the HTTP responses are handed to Recv in the reverse order; the client over the channel
+   is fed the reply for "2" first and delivers in yet another order, the client over the direct connection is fed
+   them in request order; a third round trip is a notification's 204 and never reaches Recv *)
+Definition exc_htr : list HttpChan.label :=
+  [HSend; HSend; HSend; HDo 1 (DoStatus 200); HDo 2 (DoStatus 204); HDo 0 (DoStatus 200); HRecv 1; HRecv 0].
+Definition exc_body (j : nat) : inbound :=
+  match j with 0 => InMsgs false [ex_reply [49%N] [55%N]] | 1 => InMsgs false [ex_reply [50%N] [56%N]] | _ => InBad end.
+Definition exc_ops : list CliModel.label :=
+  [LOp 0 KCall [ex_spec 49]; LOp 1 KCall [ex_spec 50]; LOp 2 KNotify [ex_nspec]; LRelReq 0; LRelReq 1; LRelSend 0; LRelSend 1; LRelSend 2].
+Definition exc_tr_http : list CliModel.label :=
+  exc_ops ++ [LFeed (FMsg (exc_body 1)); LFeed (FMsg (exc_body 0)); LRelDeliver 1; LRelDeliver 0].
+Definition exc_tr_direct : list CliModel.label :=
+  exc_ops ++ [LFeed (FMsg (exc_body 0)); LRelDeliver 0; LFeed (FMsg (exc_body 1)); LRelDeliver 1].
+
+Example same_results_cli_nonvacuous :
+  exists hs s1 s2 o1 o2,
+    HttpChan.run HttpChan.init exc_htr = Some hs /\ ~ In HClose exc_htr /\ forallb is_done (gs hs) = true
+    /\ traces_to ex_cfg exc_tr_http s1 /\ traces_to ex_cfg exc_tr_direct s2
+    /\ feeds exc_tr_http = http_feeds exc_body exc_htr /\ feeds exc_tr_direct = direct_feeds exc_body exc_htr
+    /\ http_feeds exc_body exc_htr <> direct_feeds exc_body exc_htr
+    /\ replies_answer_own_requests s1 exc_htr exc_body
+    /\ stream_ids (recs_of (http_feeds exc_body exc_htr)) = [[50%N]; [49%N]]
+    /\ (forall ms, In ms (fed exc_tr_direct) -> In ms (fed exc_tr_http))
+    /\ op_at s1 1 = Some o1 /\ op_at s2 1 = Some o2 /\ o_ctx o1 = None /\ o_ctx o2 = None
+    /\ err s1 = None /\ err s2 = None /\ op_ids s1 1 = op_ids s2 1
+    /\ In (ORet 1 (RetCall (RRes [56%N]))) (hist s1) /\ In (ORet 1 (RetCall (RRes [56%N]))) (hist s2)
+    /\ In (ORet 2 RetNotify) (hist s1).
+Proof.
+  destruct (HttpChan.run HttpChan.init exc_htr) as [hs|] eqn:Eh; [|revert Eh; vm_compute; discriminate].
+  destruct (run (init_of ex_cfg) exc_tr_http) as [[s1 oss1]|] eqn:E1; [|revert E1; vm_compute; discriminate].
+  destruct (run (init_of ex_cfg) exc_tr_direct) as [[s2 oss2]|] eqn:E2; [|revert E2; vm_compute; discriminate].
+  exists hs, s1, s2. revert Eh E1 E2. vm_compute. intros Eh E1 E2. injection Eh as <-. injection E1 as <- <-. injection E2 as <- <-.
+  do 2 eexists. split; [reflexivity|]. split; [intros H; repeat (destruct H as [H|H]; [discriminate|]); exact H|].
+  split; [reflexivity|]. split; [eexists; reflexivity|]. split; [eexists; reflexivity|].
+  split; [reflexivity|]. split; [reflexivity|]. split; [discriminate|].
+  split.
+  { exists (fun j => j). split; [auto|]. intros j Hj Hd. destruct j as [|[|[|j]]]; try reflexivity; try discriminate; try lia. }
+  split; [reflexivity|].
+  split; [intros ms [<-|[<-|[]]]; auto|].
+  repeat (split; [reflexivity|]). repeat split; auto 12.
+Qed.
